@@ -93,7 +93,7 @@ func init() {
 	checks["C08"] = histCheck("C08", []string{"C08.world_reset_hard_files", "C08.world_reset_spec", "C05.reset_readback", "C08.accepts", "C08.accepts_number", "C08.accepted_shape", "C08.position_agrees", "C08.out_of_range_refused", "C08.mode_table", "C08.resetCmd_ok", "C08.reset_soft", "C08.reset_refused", "C05.reset_readback"}, histRule+"; before every reset the `reflog` listing is sampled",
 		func(ctx *Ctx) *HistCfg {
 			return &HistCfg{Prop: "C08", Cases: tierN(ctx, 200, 2000), MinSteps: 10, MaxSteps: 35,
-				W:       weights(Weights{"commit": 16, "reset": 14, "rename-reset": 4, "hard-rmdir": 5, "edit-same-size": 8, "switch": 3, "switch-c": 2, "rmdir": 4, "rmfile": 5, "junk": 0}),
+				W:       weights(Weights{"commit": 16, "reset": 14, "rename-reset": 4, "hard-rmdir": 5, "edit-same-size": 8, "switch": 3, "switch-c": 2, "rmdir": 4, "rmfile": 5, "junk": 0, "switch-reset-probe": 4}),
 				Oracles: []HistOracle{orC08}, PreReset: true}
 		})
 	checks["C09"] = histCheck("C09", []string{"C09.world_restore_staged_exact", "C09.world_restore_files", "C09.restore_only_tracked", "C09.world_restore_frame", "C09.world_restore_staged_frame", "C09.restore_named", "C09.restore_unknown_refused", "C06.isDir_iff", "C06.mem_byDir", "C06.getEntry_correct", "C04.update_membership", "C04.delete_exact", "C09.restoreStaged_exact", "C09.restoreStaged_unknown_refused", "C09.restoreIndexOne_spec", "C09.restoreIndexOne_refused_iff", "C09.rsFold_spec"}, histRule,
